@@ -19,6 +19,8 @@ def generate(families, tag, deep=None):
     """Run TypeGen (or TypeGenU for the "util" family) per family; return (cases, tlc stats)."""
     cases = []
     stats = {"states": 0, "distinct": 0, "families": {}}
+    if os.environ.get("VERIF_FAMILIES"):      # development aid only (never set by the registered commands): a subset of the families
+        families = [(f, dp) for f, dp in families if f in os.environ["VERIF_FAMILIES"].split(",")]
     d = os.path.join(vlib.WORK, tag)
     os.makedirs(d, exist_ok=True)
     for fam, depth in families:
